@@ -100,7 +100,7 @@ func ruleDeleg(e *Env, rule, pkg string) {
 			continue
 		}
 		f := e.C.GlobalFuncInit(gv)
-		if f == nil || flow.Origin(f) != e.P.Func(pkg, g.want) {
+		if f == nil || flow.Origin(f) != e.F(pkg, g.want) {
 			e.S.Bad(rule, pkg+"."+g.name, "initialiser", "the package-level "+g.name+" is not initialised to "+g.want+" or is reassigned inside the module", "", "")
 		} else {
 			e.S.Ok(rule, pkg+"."+g.name, "initialiser", "= "+g.want+", never reassigned inside the module", "")
@@ -109,7 +109,7 @@ func ruleDeleg(e *Env, rule, pkg string) {
 	// every abstract run: summaries make the Default* functions uninterpreted too
 	sums := map[string]pred.Summary{}
 	for _, n := range []string{"DefaultFormatter", "DefaultParser"} {
-		if f := e.P.Func(pkg, n); f != nil {
+		if f := e.F(pkg, n); f != nil {
 			name := n
 			sums[f.String()] = func(ev *pred.Evaluator, args []pred.Val) (pred.Val, error) {
 				return pred.Term{Fn: name, Args: args}, nil
